@@ -2,7 +2,7 @@
     tokenizer model into exactly the token stream of the tree the writer was given, and parsed by the C01 parser
     model into exactly that tree. *)
 From Coq Require Import NArith List Bool Lia.
-From SV Require Import KV.KvBase KV.KvLex KV.KvParse KV.KvSym KV.KvLexProofs KV.KvParseProofs.
+From SV Require Import KV.KvBase KV.KvLex KV.KvParse KV.KvSym KV.KvLexProofs KV.KvParseProofs KV.KvRoundtrip.
 From SV Require KV.KvSer.
 From SV Require Import Fmt.VmfText Fmt.VmfTextProofs Fmt.VmfBlocks.
 Import ListNotations.
@@ -286,14 +286,16 @@ Section Main.
       apply good_each. intros e' He'. apply IHf; [apply Hfuns|now apply ws_only_indent|]. eapply env_sub; eassumption.
   Qed.
 
-  (** The text parses (C01 tokenizer + parser models) to exactly the tree the writer was given. *)
-  Theorem program_text_parses fuel p e text kvs flag_on :
-    prog_ok nums p = true -> env_ok nums e ->
+  (** The text parses (C01 tokenizer + parser models, for every parser configuration [P] accepted by C01's [pcfg_ok])
+      to exactly the tree the writer was given. *)
+  Theorem program_text_parses (P : parsecfg) fuel p e text kvs flag_on :
+    pcfg_ok P = true -> prog_ok nums p = true -> env_ok nums e ->
     run funs fuel p [] e = Some (text, kvs) -> doc_names_ok kvs = true ->
-    parse_kv vmf_E flag_on text = POk kvs.
+    parse_kv P vmf_E flag_on text = POk kvs.
   Proof.
-    intros Hp He Hr Hn. assert (G : good (Some (text, kvs))) by (rewrite <- Hr; now apply run_good). cbn [good] in G.
-    unfold parse_kv. rewrite (lexesL_all _ _ _ G). now apply parse_toks_doc.
+    intros HP Hp He Hr Hn. assert (G : good (Some (text, kvs))) by (rewrite <- Hr; now apply run_good). cbn [good] in G.
+    unfold parse_kv, parse_kv_opts. rewrite (lexesL_all _ _ _ G).
+    apply parse_toks_doc_opts; [reflexivity|]. apply doc_ok_of; [exact HP|exact Hn|reflexivity].
   Qed.
 
 End Main.
@@ -306,12 +308,12 @@ Proof.
   destruct (n =? fn); [exact Hp|now apply IH].
 Qed.
 
-Theorem table_text_parses nums tbl : table_ok nums tbl = true ->
+Theorem table_text_parses nums tbl (P : parsecfg) : table_ok nums tbl = true -> pcfg_ok P = true ->
   forall fuel fn e text kvs flag_on, env_ok nums e ->
   run (fun_lookup tbl) fuel (fun_lookup tbl fn) [] e = Some (text, kvs) -> doc_names_ok kvs = true ->
-  parse_kv vmf_E flag_on text = POk kvs.
+  parse_kv P vmf_E flag_on text = POk kvs.
 Proof.
-  intros Ht fuel fn e text kvs flag_on He Hr Hn.
+  intros Ht HP fuel fn e text kvs flag_on He Hr Hn.
   eapply (program_text_parses nums (fun_lookup tbl)); try eassumption; now apply table_funs_ok.
 Qed.
 
@@ -319,7 +321,7 @@ Qed.
 Definition raw_prog : wprog := PKv (false, 0%nat) [TLit [109]] [TIp RawStr 0] PEnd.
 Theorem raw_line_refuted :
   exists e, forall fuel text kvs, run (fun _ => PEnd) (S fuel) raw_prog [] e = Some (text, kvs) ->
-    parse_kv vmf_E (fun _ => false) text <> POk kvs.
+    parse_kv ref_pcfg vmf_E (fun _ => false) text <> POk kvs.
 Proof.
   exists (DEnv (fun _ => [34]) (fun _ => false) (fun _ => [])). intros fuel text kvs H.
   rewrite run_S in H. cbn in H. injection H as <- <-. vm_compute. discriminate.
@@ -352,7 +354,7 @@ Example block_program_example :
   prog_ok ex_nums ex_ent_prog = true /\ prog_ok ex_nums ex_out_prog = true /\
   exists text kvs,
     run ex_funs 3 ex_ent_prog [] ex_env = Some (text, kvs) /\ doc_names_ok kvs = true /\
-    parse_kv vmf_E (fun _ => false) text = POk kvs /\
+    parse_kv ref_pcfg vmf_E (fun _ => false) text = POk kvs /\
     kvs = [Block [104;105;100;100;101;110]
             [Block [101;110;116;105;116;121]
                [Leaf [105;100] [52;50]; Leaf [97;34;98] [34;92;10;13;120]; Leaf [107] [];
